@@ -58,3 +58,10 @@ Definition cfg_of (sk : list (string * list string)) : cfg :=
      && sk_before sk "ParametricTransform.link_" "del:self._parameters['params']" "set:self.params=other").
 
 Definition gen_cfg : cfg := cfg_of gen_skeleton.
+
+(* StationaryVelocityFieldTransform.grid_ installs a private (shallow-copied) ExpFlow instead of writing
+   align_corners into the module it shares with shallow copies *)
+Definition gen_private_exp : bool :=
+  sk_before gen_skeleton "StationaryVelocityFieldTransform.grid_" "call:shallow_copy(self.exp)" "set:exp.align_corners=grid.align_corners()"
+  && sk_before gen_skeleton "StationaryVelocityFieldTransform.grid_" "set:exp.align_corners=grid.align_corners()" "set:self.exp=exp"
+  && negb (sk_has gen_skeleton "StationaryVelocityFieldTransform.grid_" "set:self.exp.align_corners=grid.align_corners()").
